@@ -399,11 +399,11 @@ func genRandom(r *hx.Rand, family string) *Case {
 			rule.Kind = "pn"
 		case 3, 4:
 			rule.Kind = "pe"
-			rule.P1 = g.genPattern(hostile, sideCtx)
+			rule.P1 = g.genPattern(hostile || family == "control", sideCtx)
 		default:
 			rule.Kind = "pr"
-			rule.P1 = g.genPattern(hostile, sideCtx)
-			rule.P2 = g.genPattern(hostile, sideCtx)
+			rule.P1 = g.genPattern(hostile || family == "control", sideCtx)
+			rule.P2 = g.genPattern(hostile || family == "control", sideCtx)
 		}
 		if rule.Kind != "pn" && r.Intn(6) == 0 {
 			rule.NoBody = true
@@ -630,7 +630,41 @@ func genSystematic() []*Case {
 				mk("sys-control", args, Prog{Rules: []Rule{{Kind: "pn", Body: []Stmt{tr(3)}}}, End: append([]Stmt{tr(9)}, sh.body[0].A...), Funcs: sh.funcs})
 			}
 		}
-		// reached from a pattern expression (through a function)
+		// reached from a pattern expression (through a function) at each of the three pattern sites of
+		// execActions -- single pattern, first pattern of a range, second pattern of a range (range open) --
+		// over several file operands, so that next (record abandoned) and nextfile (rest of the file
+		// abandoned) are told apart by the records, FNR, NR and FILENAME that follow
+		for _, site := range []string{"single", "range-start", "range-stop"} {
+			for gi, guard := range []*Cond{{Op: "fnr", K: 2}, {Op: "has", K: 'S'}, {Op: "nr", K: 1}} {
+				for ai, args := range [][]string{{"f1", "f2"}, {"f1", "f1", "f2"}, {"f2", "f1", "g0=1", "f2"}, {"f1", "-", "f2"}} {
+					if (op == "X" || op == "XN") && (gi > 0 || ai > 1) {
+						continue
+					}
+					pc := Pattern{Pre: []Stmt{tr(4), {Op: "IF", C: guard, A: []Stmt{ctl}}}, C: &Cond{Op: "has", K: 'E'}}
+					var rule Rule
+					switch site {
+					case "single":
+						pc.C = &Cond{Op: "t"}
+						rule = Rule{Kind: "pe", P1: pc, Body: []Stmt{tr(1)}}
+					case "range-start":
+						rule = Rule{Kind: "pr", P1: pc, P2: Pattern{C: &Cond{Op: "has", K: 'x'}, Inline: true}, Body: []Stmt{tr(1)}}
+					case "range-stop":
+						rule = Rule{Kind: "pr", P1: Pattern{C: &Cond{Op: "t"}, Inline: true}, P2: pc, Body: []Stmt{tr(1)}}
+					}
+					mk("sys-control-pattern-site", args, Prog{Rules: []Rule{rule, {Kind: "pn", Body: []Stmt{tr(3)}}}, End: []Stmt{tr(9)}})
+					// through a user function called from the pattern function, and with a second range rule behind
+					pf := Pattern{Pre: []Stmt{{Op: "CALL", N: 0}}, C: pc.C}
+					r2 := rule
+					if site == "range-stop" {
+						r2.P2 = pf
+					} else {
+						r2.P1 = pf
+					}
+					mk("sys-control-pattern-site", args, Prog{Rules: []Rule{r2, {Kind: "pr", P1: Pattern{C: hasS, Inline: true}, P2: Pattern{C: hasE, Inline: true}, Body: []Stmt{tr(2)}}},
+						End: []Stmt{tr(9)}, Funcs: []Func{{Local: "l0", Body: []Stmt{{Op: "IF", C: guard, A: []Stmt{ctl}}}}}})
+				}
+			}
+		}
 		for _, kind := range []string{"pe", "pr"} {
 			p := Pattern{Pre: []Stmt{{Op: "IF", C: &Cond{Op: "fnr", K: 2}, A: []Stmt{ctl}}}, C: &Cond{Op: "t"}}
 			mk("sys-control-pattern", []string{"f1", "f2"}, Prog{Rules: []Rule{{Kind: kind, P1: p, P2: Pattern{C: hasE}, Body: []Stmt{tr(1)}}, {Kind: "pn", Body: []Stmt{tr(3)}}}, End: []Stmt{tr(9)}})
